@@ -27,6 +27,14 @@ fn main() {
         eprintln!("unknown harness {key}");
         std::process::exit(4);
     };
+    // record where the panic happened (file:line:col) so that distinct failing sites with the
+    // same message are told apart
+    static LOC: std::sync::Mutex<String> = std::sync::Mutex::new(String::new());
+    panic::set_hook(Box::new(|info| {
+        if let Some(l) = info.location() {
+            *LOC.lock().unwrap() = format!("{}:{}:{}", l.file(), l.line(), l.column());
+        }
+    }));
     let r = panic::catch_unwind(move || {
         let mut t = vh::src::Tape::new(tape);
         f(&mut t);
@@ -48,7 +56,7 @@ fn main() {
             } else {
                 "panic".to_string()
             };
-            println!("REPLAY: reproduced: {msg}");
+            println!("REPLAY: reproduced: {msg} @ {}", LOC.lock().unwrap());
             std::process::exit(1)
         }
     }
